@@ -32,6 +32,13 @@ MALFORMED = [
     '<head><meta name="wm-diff-title" content="x"><template id="wm-diff-old-head"><title>o</title></template></head><p>again</p>',
     '﻿<p>bom</p>', '<p>emoji 😀 and astral 𝒜</p>', '<P CLASS=Upper>upper</P>', '<p title="a&quot;b" data-q=\'s"d\'>quotes</p>', '<a href="?a=1&b=2&amp;c=3">amp</a>',
 ]
+# attribute names that look like parameters or attributes of the libraries underneath (a page may use any name)
+ODD_ATTRS = ['name', 'string', 'attrs', 'class_', 'sourceline', 'sourcepos', 'parser', 'builder', 'namespace', 'prefix', 'parent', 'text', 'contents',
+             'children', 'tag', 'self', 'cls', 'kwargs', 'markup', 'features', 'hidden', 'is_xml', 'id', 'style', 'element', 'el', 'soup', 'key', 'value']
+for _i in range(0, len(ODD_ATTRS), 3):
+    _a = ' '.join('%s="v%d"' % (n, k) for k, n in enumerate(ODD_ATTRS[_i:_i + 3]))
+    MALFORMED.append('<html %s><head %s><title>t</title></head><body %s><p>page with odd attribute names</p></body></html>' % (_a, _a, _a))
+    MALFORMED.append('<body %s><p %s>only the body carries them</p></body>' % (_a, _a))
 KNOWN_INPUTS = [('<plaintext>everything after', '<plaintext>everything after', 'all'), ('<p>x</p>', '<plaintext>everything after', 'all')]
 FRAMESETS = ['<html><head><title>F</title></head><frameset cols="50%,50%"><frame src="a.html"><frame src="b.html"></frameset></html>',
              '<frameset><frame src="a"></frameset><body>ignored</body>']
